@@ -85,6 +85,10 @@ pub fn run_hist(prop: &str, seed: u64, index: usize, _tier: Tier) -> RunReport {
     let (case, d) = if prop == "C17" {
         // keep issuing calls after a roll-over that failed because a foreign entry occupies the next WAL name
         crate::gen::generate_opts(seed, profile, buggify, n_foreign, true, true)
+    } else if prop == "C06" && seed % 8 == 0 {
+        // a directory / symlink squats the name of one of the next WAL files: the roll-over onto it fails, the calls
+        // go on; what the directory holds must stay a contiguous run of WAL files
+        crate::gen::generate_opts(seed, profile, buggify, crate::gen::SQUATTER, true, true)
     } else if prop == "C01" {
         // C01 speaks of the state the log *shows* before it is dropped: the driver does not stop where a live call
         // departs from the reference model (that is C05's business); the model is re-based on what the log shows and
